@@ -47,6 +47,26 @@ func c04Doc(w *W, s *parseSession, in []byte, harness string, cfgs []Cfg) {
 			w.Violate(Violation{Harness: harness, Fingerprint: "C04/" + fp + "/" + harness, What: bad, Case: append([]byte(nil), in...), Config: c.String()})
 		}
 	}
+	// the same object once more without any option, right after its no-copy use: strings are
+	// copied by default, so they must read the same after the input buffer was overwritten
+	if verdict == ref.Valid && len(cfgs) == 2 && !cfgs[1].Copy {
+		pj, err, p := s.parseDefaultScribbled(cfgs[1].AVX512, in)
+		w.res.Validated++
+		bad, fp := "", ""
+		if p != "" {
+			bad, fp = "panic: "+p, "panic"
+		} else if err == nil {
+			docs, werr := walkDoc(pj, walkCombos[4])
+			if werr != nil {
+				bad, fp = werr.Error(), "unreadable"
+			} else if got := docs[0].Render(); got != want {
+				bad, fp = fmt.Sprintf("strings exposed as %s, exact decoding is %s", clip(got), clip(want)), "decode"
+			}
+		}
+		if bad != "" {
+			w.Violate(Violation{Harness: harness, Fingerprint: "C04/default-after-nocopy/" + fp, What: "parsed without options into the object last used in no-copy mode, input overwritten afterwards: " + bad, Case: append([]byte(nil), in...), Config: "default-options-after-nocopy"})
+		}
+	}
 }
 
 func strModes() []Cfg { return []Cfg{{hasAVX512, true}, {hasAVX512, false}} }
@@ -370,6 +390,11 @@ func c04Replay(v *Violation) string {
 	c := parseCfg(v.Config)
 	d, vd := ref.Parse(v.Case)
 	pj, err, p := doParse(c, v.Case, nil, false)
+	if v.Config == "default-options-after-nocopy" {
+		s := &parseSession{}
+		s.parse(Cfg{hasAVX512, false}, v.Case, false)
+		pj, err, p = s.parseDefaultScribbled(hasAVX512, v.Case)
+	}
 	if p != "" {
 		return "FAIL panic " + p
 	}
